@@ -15,6 +15,7 @@ import DriverLib.C13
 import DriverLib.C14
 import DriverLib.C15
 import DriverLib.C16
+import DriverLib.C17
 import DriverLib.C18
 -- END-GENERATED-IMPORTS
 open Lean Drv
@@ -36,6 +37,7 @@ def handlers : List (String → Json → Option R) := [
   Drv.C14.handle,
   Drv.C15.handle,
   Drv.C16.handle,
+  Drv.C17.handle,
   Drv.C18.handle
 -- END-GENERATED-HANDLERS
 ]
